@@ -29,6 +29,11 @@ which the minimally repaired code is right):
 * "a score imported from MIDI contains exactly the file's pitches": the multiset of Note.midi_pitch
   over all parts (tied chains counted once) equals the multiset of note-on/off pairs of the file - for every combination
   of part_voice_assign_mode, estimate_voice_info, estimate_key, quantization_unit and assign_note_ids.
+  On files given message by message (kind `mx`) "the file's pitches" are the pitches of the note-on messages with a positive
+  velocity, and the clause is demanded of files whose tracks form complete notes (every key (channel, note) alternates
+  note-on / note-off - written either way - and nothing is left sounding: `WellPaired` of Props/C17Midi.lean); for any other
+  file (a note-on of a sounding key, a note-off of a silent one, notes never ended) only "no pitch that no note-on has" is
+  demanded, and what the importer makes of it is compared with the model.
 """
 import math
 import os
@@ -45,7 +50,7 @@ PROPERTY = "C17"
 DRIVER = "drv_c17"
 PROPS = ["PartituraModel.Props.C17", "PartituraModel.Props.C17Search", "PartituraModel.Props.C17Options",
          "PartituraModel.Props.C17Tables", "PartituraModel.Props.C17Float", "PartituraModel.Props.C17Dispatch",
-         "PartituraModel.Props.C17Stable"]
+         "PartituraModel.Props.C17Stable", "PartituraModel.Props.C17Midi"]
 TRUSTED = [
     "VoSA is modelled completely (Model/Vosa.lean) over exact rationals; the only arithmetic on times in the code is "
     "offset = onset + duration in the field's dtype (binary32/64/int): the offsets VSNote computed are captured and handed "
@@ -75,8 +80,17 @@ TRUSTED = [
     "takes the parameter lists from the signatures (Gen/C17Tables.lean) and mirrors these rules",
     "note_array construction of Part / Score / PerformedPart / Performance (ensure_notearray path): the model starts from the "
     "fields of the note array the object yields (its own properties are C03/C14)",
-    "mido file (de)serialisation; add_measures / tie_notes / find_tuplets of the MIDI importer are only observed "
-    "through Note.midi_pitch, spelling and voice (their own properties are C04/C11); `quantize` is np.round (half to even)",
+    "mido file (de)serialisation (the model starts from the message list mido yields: type, delta time, channel, note, "
+    "velocity); add_measures / tie_notes / find_tuplets, time / key signatures and tempi of the MIDI importer are not "
+    "modelled - a tied chain is observed as one note (onset, pitch, total duration, voice, spelling, id; their own properties "
+    "are C04/C11); `quantize` is `unit * np.round(t / unit)` in binary64, modelled as exact round-half-even of the rational "
+    "t / unit (equal for tick counts below 2^52; compared on random units and times: stream quant)",
+    "Python dict semantics of the importer (`setdefault`, `len`, insertion order of `defaultdict(list)` and of `notes_by_part`, "
+    "`sorted` on (track, channel) tuples, `dict(pairs)` keeping the last value) are mirrored by association lists in "
+    "Model/C17Midi.lean; str.format of the id formats is `String.replace` of the one `{}`",
+    "translator harness/translate_c17midi.py: reads `note_hash`'s return expression operator by operator, the set `relevant`, "
+    "the defaults of load_score_midi / estimate_voices, the `mode == n` constants and the id format strings from the live "
+    "source (ast / inspect); what it cannot read is pinned and named in C17MIDI_PINNED (breaks C17.midi_tables_extracted)",
     "translators harness/translate_ps13.py, translate_c17.py: they read the tables by ROLE from the live source (ast, aliases and "
     "module constants followed) and the live matrices; what they cannot read is emitted with its last known value and named in "
     "PS13_PINNED / C17_PINNED, which breaks C17.ps13_tables_extracted / c17_tables_extracted while the driver keeps building",
@@ -97,6 +111,14 @@ PARTIAL = [
     "2^51 semitones in Props/C17Float.lean)",
     "double_acc_bound needs K_post >= 1 (default 40): with K_post = 0 the first note's window is empty and the model "
     "(like the code) can produce six sharps on an A for an E flat (example in Props/C17.lean)",
+    "MIDI import: midi_score_has_exactly_the_files_pitches is a theorem about the MODEL of load_score_midi (message loop, "
+    "note_hash, quantize, key sorting, assign_group_part_voice, the zip feeding create_part, routing into parts / groups) for "
+    "files whose tracks form complete notes (hypothesis WellPaired - validity of the input; examples show the claim false "
+    "without it: a repeated note-on overwrites the first onset); that the code is this model is the correspondence (stream "
+    "midix: every part and every note of the score; midinotes; midiassign; notehash whole table; quant), not a proof; part / "
+    "group NAMES, time and key signatures of the file, tempi, measures and ties are outside the model; midi_voices_from_one "
+    "(voices of the imported score positive and gapless) covers the modes that leave the voice open (1, 3, 4, 5) - in modes 0 "
+    "and 2 voices come from channels / tracks and estimated voices are not used",
     "estimate_key(key_profiles=<matrix>) (an ndarray instead of a name) raises in the validation of estimate_key "
     "(`array not in list`); only ks_kid accepts a matrix - outside the property's 'three key-profile sets', not covered; "
     "a string passed as return_sorted_keys (its truth value) is not modelled",
@@ -113,7 +135,11 @@ RULE = ("random note arrays (1-400 rows; simultaneous, overlapping, zero-length 
         "skip flags, est_best_connections on random matrices in both modes; MIDI files written with mido from such arrays, loaded "
         "with all six part_voice_assign modes x estimate_voice_info x estimate_key x quantization_unit x assign_note_ids; binary64 "
         "rounding of random rationals, exact ties and the operands of compute_morphetic_pitch against the machine's floats (kind "
-        "flt); whole finite tables (KEYS, chroma x morph incl. pitches far outside the keyboard where rounding matters, "
+        "flt); MIDI files given message by message (kind mx: note-offs written both ways, skipped message types, tempo / time "
+        "signature messages, several tracks and channels, tracks without notes, zero-length notes, well-paired and irregular "
+        "streams - repeated note-ons, unmatched note-offs, notes left sounding -, the six modes plus undocumented ones, "
+        "arguments given or omitted, quantization units incl. 0 and None), assign_group_part_voice on random key lists for modes "
+        "0-7 and quantize on random integers (kind ma), the whole 16 x 128 table of note_hash (kind mt); whole finite tables (KEYS, chroma x morph incl. pitches far outside the keyboard where rounding matters, "
         "profile-name tables); distinct = distinct case content; non-trivial = at least two rows (or a table case)")
 LEVEL_TEXT = ("Lean 4 theorems over ALL note lists about an executable model of ps13 stage 1 (complete, INCLUDING the binary64 "
               "operations of compute_morphetic_pitch and p2pn: the rounding model is proved to be IEEE round-to-nearest-even and "
@@ -122,7 +148,11 @@ LEVEL_TEXT = ("Lean 4 theorems over ALL note lists about an executable model of 
               "every id exactly once, so one positive, gaplessly numbered voice per note is a theorem without hypotheses about the "
               "search), of the field/unit selection, the method/args/kwargs dispatch and profile-name "
               "tables of the wrappers, and of the exact-rational Krumhansl-Schmuckler argmax and ranking (proved to be the code's "
-              "binary64 argmax whenever the computed correlations are close and the margin is not tiny - both checked per case); "
+              "binary64 argmax whenever the computed correlations are close and the margin is not tiny - both checked per case), and of "
+              "the MIDI score importer from the messages of the file to the notes of the parts (for every file whose tracks form "
+              "complete notes, each of the six modes, any quantization unit and switches: the import succeeds and the score holds "
+              "exactly the pitches of the file's note-ons, each spelled so that it sounds its pitch - note_hash proved injective "
+              "over its whole regenerated table); "
               "the model is tied to the "
               "code by regenerating ps13's tables (found by role in the source), KEYS, the profiles and the live 24 x 12 matrices, "
               "MAX_COST, the name tables, method tuples, keyword lists and the unit-preference chain from "
@@ -236,6 +266,58 @@ def rand_unit(rng):
         step = rng.choice([[1, 4], [1, 4], [1, 8], [1, 3], [1, 1], [1, 12]])
     return unit, dt, step
 
+NOTE_TYPES = ("note_on", "note_off")
+
+
+def gen_tracks(rng, wellpaired):
+    """tracks of raw MIDI messages [type, delta, channel, note, velocity] for `load_score_midi`: note-ons, note-offs written
+    either way (note_off, or note_on with velocity 0), messages the loop skips (control_change, program_change, text),
+    set_tempo, a time signature at time 0, tracks without notes, several channels; `wellpaired`: every key (channel, note)
+    alternates on / off and nothing is left sounding - otherwise also a note-on of a sounding key (the onset is
+    overwritten), a note-off of a silent key (ignored) and notes left sounding at the end of the track"""
+    ntr = rng.choice([1, 1, 2, 3])
+    tracks = []
+    centre = rng.randint(40, 90)
+    for t in range(ntr):
+        if ntr > 1 and rng.random() < 0.2:
+            tracks.append([["set_tempo", 0, 0, 0, 0], ["text", rng.randint(0, 5), 0, 0, 0]])
+            continue
+        msgs = []
+        if rng.random() < 0.4:
+            msgs.append(["time_signature", 0, 0, 0, 0])
+        chans = rng.sample(range(16), rng.choice([1, 1, 2, 3]))
+        pool = sorted(set(min(108, max(21, centre + rng.randint(-9, 9))) for _ in range(rng.choice([2, 4, 8, 16]))))
+        sounding = []
+        zero = rng.random() < 0.4
+        for _ in range(rng.choice([2, 6, 12, 30, 60])):
+            r = rng.random()
+            dt = rng.choice([0, 0, 1, 1, 2, 3, 4, 6, 8, 12]) if zero else rng.choice([1, 1, 2, 3, 4, 6, 8, 12])
+            ch = rng.choice(chans)
+            if r < 0.07:
+                msgs.append([rng.choice(["control_change", "program_change", "text"]), dt, ch, 0, rng.randint(0, 127)])
+            elif r < 0.10:
+                msgs.append(["set_tempo", dt, 0, 0, 0])
+            elif r < 0.55 or not sounding:
+                key = (ch, rng.choice(pool))
+                if key in sounding and (wellpaired or rng.random() < 0.5):
+                    continue
+                if key not in sounding:
+                    sounding.append(key)
+                msgs.append(["note_on", dt, key[0], key[1], rng.randint(1, 127)])
+            else:
+                if not wellpaired and rng.random() < 0.1:
+                    key = (ch, rng.choice(pool))       # perhaps silent: ignored by the importer
+                else:
+                    key = rng.choice(sounding)
+                if key in sounding:
+                    sounding.remove(key)
+                msgs.append(["note_off", dt, key[0], key[1], rng.choice([0, 64])] if rng.random() < 0.6 else ["note_on", dt, key[0], key[1], 0])
+        if wellpaired or rng.random() < 0.5:
+            for key in list(sounding):
+                msgs.append(["note_off", rng.choice([0, 1, 2, 4]), key[0], key[1], 0])
+        tracks.append(msgs)
+    return tracks
+
 
 def cases(rng, tier):
     big = tier != "quick"
@@ -345,6 +427,20 @@ def cases(rng, tier):
                "sm": rng.choice([None] * 4 + ["ps13s1"] * 4 + ["ps13", "PS13S1", "ps13s2", ""]), "skw": skw,
                "km": rng.choice([None] * 4 + ["krumhansl"] * 4 + ["temperley", "ks", "Krumhansl", ""]),
                "nargs": rng.choice([0] * 10 + [1, 2]), "kkw": kkw}
+    # ---- load_score_midi from raw messages to the notes of the parts (kind mx): the importer's own loops
+    for i in range(150 if tier == "quick" else 1800 if tier == "thorough" else 250):
+        wp = rng.random() < 0.7
+        ppq = rng.choice([1, 4, 12, 96, 480])
+        yield {"k": "mx", "ppq": ppq, "tracks": gen_tracks(rng, wp), "wp": wp,
+               "mode": rng.choice([None, 0, 1, 2, 3, 4, 5, 0, 1, 2, 3, 4, 5, 6, 9]) if i % 7 else i % 6,
+               "qu": rng.choice(["omit", "omit", None, 0, 1, 2, 3, 4, 7, ppq]),
+               "voice": rng.choice([None, False, True, True]), "key": rng.choice([None, False, True]),
+               "ids": rng.choice([None, True, True, False])}
+    yield {"k": "mx", "ppq": 4, "tracks": [[["text", 3, 0, 0, 0]]], "wp": True, "mode": 0, "qu": "omit", "voice": None, "key": None, "ids": None}
+    yield {"k": "mt"}
+    for _ in range(30 if tier == "quick" else 300 if tier == "thorough" else 0):
+        keys = sorted(set((rng.randrange(4), rng.randrange(rng.choice([2, 16]))) for _ in range(rng.randint(1, 9))))
+        yield {"k": "ma", "keys": [list(x) for x in keys], "q": [[rng.choice([None, 0, 1, 2, 3, 5, 7, 12, 480]), rng.randrange(0, 5000)] for _ in range(10)]}
     # ---- binary64: the model's rounding (Model/C17Float.lean) against the machine's
     for _ in range(6 if tier == "quick" else 60 if tier == "thorough" else 0):
         yield {"k": "flt", "seed": rng.randrange(10**9), "n": 60}
@@ -400,7 +496,7 @@ def fmt_spellings(rows):
 def evaluate(d):
     k = d["k"]
     return {"ps": ev_ps, "vo": ev_vo, "key": ev_key, "midi": ev_midi, "tbl": ev_tbl, "cm": ev_cm, "rn": ev_rn,
-            "pc": ev_pc, "mu": ev_mu, "obj": ev_obj, "flt": ev_flt, "opt": ev_opt}[k](d)
+            "pc": ev_pc, "mu": ev_mu, "obj": ev_obj, "flt": ev_flt, "opt": ev_opt, "mx": ev_mx, "mt": ev_mt, "ma": ev_ma}[k](d)
 
 
 def ev_tbl(d):
@@ -1012,6 +1108,179 @@ def ev_midi(d):
     return ev
 
 
+def build_mx(d):
+    import mido
+
+    mid = mido.MidiFile(ticks_per_beat=d["ppq"])
+    for tr in d["tracks"]:
+        t = mido.MidiTrack()
+        for ty, dt, ch, n, v in tr:
+            if ty in NOTE_TYPES:
+                t.append(mido.Message(ty, note=n, velocity=v, channel=ch, time=dt))
+            elif ty == "control_change":
+                t.append(mido.Message(ty, control=64, value=v, channel=ch, time=dt))
+            elif ty == "program_change":
+                t.append(mido.Message(ty, program=v, channel=ch, time=dt))
+            elif ty == "set_tempo":
+                t.append(mido.MetaMessage(ty, tempo=500000, time=dt))
+            elif ty == "time_signature":
+                t.append(mido.MetaMessage(ty, numerator=3, denominator=4, time=dt))
+            else:
+                t.append(mido.MetaMessage("text", text="x", time=dt))
+        mid.tracks.append(t)
+    return mid
+
+
+def msgs_tok(tracks):
+    return W.lst(lambda tr: W.lst(lambda m: "%s %d %d %d %d" % (W.s(m[0]), m[1], m[2], m[3], m[4]), tr), tracks)
+
+
+def ev_mx(d):
+    """`load_score_midi` on a file given message by message: the parts of the score, and every note of every part (onset,
+    pitch, duration of the tied chain, voice, spelling, id), against Model/C17Midi.lean"""
+    import partitura as pt
+    import partitura.io.importmidi as IM
+    import partitura.musicanalysis.key_identification as KI
+
+    mid = build_mx(d)
+    ons = sorted(m[3] for tr in d["tracks"] for m in tr if m[0] == "note_on" and m[4] > 0)
+    ev = Eval(key="mx:%s" % h32(d) if len(ons) > 1 else None)
+    kw = {}
+    if d["mode"] is not None:
+        kw["part_voice_assign_mode"] = d["mode"]
+    if d["qu"] != "omit":
+        kw["quantization_unit"] = d["qu"]
+    for nm, arg in (("voice", "estimate_voice_info"), ("key", "estimate_key"), ("ids", "assign_note_ids")):
+        if d[nm] is not None:
+            kw[arg] = d[nm]
+    seen = []
+    an = getattr(IM, "analysis", None)
+    orig = getattr(an, "estimate_spelling", None)
+    if orig is not None:
+        def spy(na, *a, **k):
+            seen.append(np.array(na, copy=True))
+            return orig(na, *a, **k)
+        an.estimate_spelling = spy
+    fd, path = tempfile.mkstemp(suffix=".mid", prefix="c17x-")
+    os.close(fd)
+    try:
+        mid.save(path)
+        sc, e = call(pt.load_score_midi, path, **kw)
+    finally:
+        os.unlink(path)
+        if orig is not None:
+            an.estimate_spelling = orig
+    tag = "%r" % (kw,)
+    mode_ok = d["mode"] is None or 0 <= d["mode"] <= 5
+    ev.info["mx_shape"] = "%s%s" % ("wellpaired" if d["wp"] else "irregular", "" if mode_ok else " invalid-mode")
+    # the note array handed to the estimators (when the importer still calls analysis.estimate_spelling)
+    qgiven = d["qu"] != "omit"
+    if len(seen) == 1 and seen[0].dtype.names and set(("onset_div", "pitch", "duration_div")) <= set(seen[0].dtype.names) and qgiven:
+        ev.requests.append("midinotes %s %s" % (W.opt(W.i, d["qu"]), msgs_tok(d["tracks"])))
+        ev.impl.append(W.f_list(lambda r: W.f_tuple(W.f_int(r["onset_div"]), W.f_int(r["pitch"]), W.f_int(r["duration_div"])), seen[0]))
+    ek = d["key"]
+    with_ids = d["ids"] is None or d["ids"]
+    exp = None
+    if e:
+        exp = "err"
+        if ons and mode_ok and d["wp"]:
+            ev.oracle.append("midi import (%s): load_score_midi raised %s: %s" % (tag, type(e).__name__, str(e)[:100]))
+    else:
+        parts = list(sc.parts)
+        notes = [nn for p in parts for nn in p.notes_tied]
+        got = sorted(int(nn.midi_pitch) for nn in notes)
+        from collections import Counter
+
+        if d["wp"] and got != ons:
+            diff = (Counter(ons) - Counter(got), Counter(got) - Counter(ons))
+            ev.oracle.append("midi import (%s): pitches of the score differ from the file's: missing %r, extra %r" % (tag, dict(diff[0]), dict(diff[1])))
+        elif Counter(got) - Counter(ons):
+            ev.oracle.append("midi import (%s): the score has pitches no note-on of the file has: %r" % (tag, dict(Counter(got) - Counter(ons))))
+        # key estimated on a near tie: binary64 decides, the model is asked without the key
+        key_cmp = bool(ek)
+        if ek:
+            arr = seen[0] if len(seen) == 1 else None
+            if arr is None:
+                key_cmp = False
+            else:
+                _, rs = exact_corrs(arr["pitch"], arr["duration_div"], KI.KRUMHANSL_KESSLER)
+                if rs is not None:
+                    g = sorted(rs, reverse=True)
+                    key_cmp = g[0] - g[1] >= 1e-4
+            for p in parts:
+                for ks in p.iter_all(pt.score.KeySignature):
+                    if ks.name not in VALID_KEYS:
+                        ev.oracle.append("midi import (%s): invalid key name %r" % (tag, ks.name))
+        rows = []
+        for p in parts:
+            kss = [(int(ks.start.t), ks.name) for ks in p.iter_all(pt.score.KeySignature)]
+            keytxt = "-"
+            if ek and key_cmp:
+                keytxt = kss[0][1] if len(kss) == 1 and kss[0][0] == 0 else "keysigs:%r" % (kss,)
+            ns = []
+            for nn in p.notes_tied:
+                idx = int(nn.id[1:]) if (with_ids and nn.id is not None and str(nn.id)[1:].isdigit()) else 0
+                ns.append((int(nn.start.t), int(nn.midi_pitch), int(nn.duration_tied), int(nn.voice), ord(str(nn.step)[0]),
+                           int(nn.alter or 0), int(nn.octave), idx, str(nn.step), "-" if nn.id is None else str(nn.id)))
+            ns.sort(key=lambda x: x[:8])
+            rows.append(W.f_tuple(str(p.id), keytxt, W.f_list(
+                lambda x: W.f_tuple(W.f_int(x[0]), W.f_int(x[1]), W.f_int(x[2]), W.f_int(x[3]), x[8], W.f_int(x[5]), W.f_int(x[6]), x[9]), ns)))
+        exp = "[" + ",".join(rows) + "]"
+        if ek and not key_cmp:
+            ek = False
+            ev.info["mx_key_near_tie"] = True
+    ev.requests.append("midix %s %s %s %s %s %s %s" % (
+        W.opt(W.i, d["mode"]), W.b(qgiven), W.opt(W.i, d["qu"] if qgiven else None), W.opt(W.b, d["voice"]),
+        W.opt(W.b, ek if d["key"] is not None else None), W.opt(W.b, d["ids"]), msgs_tok(d["tracks"])))
+    ev.impl.append(exp)
+    return ev
+
+
+def ev_mt(d):
+    """whole table of `note_hash` (16 channels x 128 notes)"""
+    import partitura.io.importmidi as IM
+
+    ev = Eval(key="mt")
+    f = getattr(IM, "note_hash", None)
+    if f is None:
+        return ev
+    seen = {}
+    for c in range(16):
+        for p in range(128):
+            h = f(c, p)
+            ev.requests.append("notehash %d %d" % (c, p))
+            ev.impl.append(W.f_int(h))
+            if h in seen:
+                ev.oracle.append("midi import: note_hash%r = note_hash%r = %r: two keys of one track share an entry of sounding_notes" % ((c, p), seen[h], h))
+            seen.setdefault(h, (c, p))
+    return ev
+
+
+def ev_ma(d):
+    """`assign_group_part_voice` for every mode on a sorted list of (track, channel) keys; `quantize` on integers"""
+    import partitura.io.importmidi as IM
+
+    ev = Eval(key="ma:%s" % h32(d))
+    f = getattr(IM, "assign_group_part_voice", None)
+    keys = [tuple(x) for x in d["keys"]]
+    o = lambda x: "-" if x is None else W.f_int(x)
+    if f is not None:
+        for mode in range(8):
+            r, e = call(f, mode, keys, {})
+            ev.requests.append("midiassign %d %s" % (mode, W.lst(lambda x: "%d %d" % x, keys)))
+            ev.impl.append("err" if e else W.f_list(lambda g: W.f_tuple(o(g[0]), o(g[1]), o(g[2])), r[0]))
+            if not e and mode <= 5 and any(g[1] is None for g in r[0]):
+                ev.oracle.append("midi import: assign_group_part_voice(mode %d) leaves a (track, channel) without a part" % mode)
+    qf = getattr(IM, "quantize", None)
+    if qf is not None:
+        for u, t in d["q"]:
+            if u:
+                r, e = call(qf, t, u)
+                ev.requests.append("quant %d %d" % (u, t))
+                ev.impl.append("err" if e else W.f_int(r))
+    return ev
+
+
 def mu_array(d):
     """a structured array holding several unit families at once.  Every family is an INJECTIVE image of the same
     integer grid (so "identical onset and duration" means the same in every family) but the images differ in
@@ -1322,6 +1591,25 @@ def finding_key(d, f):
 
 def shrink(d):
     k = d["k"]
+    if k == "mx":
+        trs = d["tracks"]
+        if len(trs) > 1:
+            for i in range(len(trs)):
+                yield dict(d, tracks=trs[:i] + trs[i + 1:])
+        for i, tr in enumerate(trs):
+            size = len(tr) // 2
+            while size >= 1:
+                for start in range(0, len(tr), size):
+                    cand = tr[:start] + tr[start + size:]
+                    if cand:
+                        yield dict(d, tracks=trs[:i] + [cand] + trs[i + 1:])
+                size //= 2
+        for kk in ("voice", "key"):
+            if d.get(kk):
+                yield dict(d, **{kk: False})
+        if d.get("qu") not in ("omit", None):
+            yield dict(d, qu=None)
+        return
     field = "notes" if k == "midi" else ("rows" if k in ("ps", "vo", "key", "mu", "obj", "opt") else None)
     if field is None:
         return
@@ -1383,7 +1671,14 @@ def distribution(descs, results):
     optsp = Counter((r.get("info") or {}).get("opt_spelling") for r in results if (r.get("info") or {}).get("opt_spelling"))
     optkey = Counter((r.get("info") or {}).get("opt_key") for r in results if (r.get("info") or {}).get("opt_key"))
     stable = Counter(v for r in results for kk, v in (r.get("info") or {}).items() if kk.startswith("stable_"))
-    return {"midi_quantized": quant, "sorted_key_comparisons_skipped_as_near_ties": sorted_skipped, "object_inputs": dict(objs),
+    mxs = Counter((r.get("info") or {}).get("mx_shape") for r in results if (r.get("info") or {}).get("mx_shape"))
+    mxd = [d for d in descs if d["k"] == "mx"]
+    mxm = Counter(m[0] for d in mxd for tr in d["tracks"] for m in tr)
+    return {"mx_files": dict(mxs), "mx_modes": dict(Counter(str(d["mode"]) for d in mxd)),
+            "mx_quantization": dict(Counter("omitted" if d["qu"] == "omit" else "None" if d["qu"] is None else "0" if d["qu"] == 0 else "unit" for d in mxd)),
+            "mx_messages": dict(mxm), "mx_note_on_velocity_0_as_off": sum(1 for d in mxd for tr in d["tracks"] for m in tr if m[0] == "note_on" and m[4] == 0),
+            "mx_key_near_ties_not_compared": sum(1 for r in results if (r.get("info") or {}).get("mx_key_near_tie")),
+            "midi_quantized": quant, "sorted_key_comparisons_skipped_as_near_ties": sorted_skipped, "object_inputs": dict(objs),
             "by_kind": dict(c), "rows": dict(sizes), "cases_with_zero_length_notes": zero, "units": dict(units),
             "key_comparisons_skipped_as_near_ties": near, "vosa_outputs_not_covering_ids": uncovered,
             "midi_modes": dict(modes),
